@@ -416,7 +416,11 @@ func (s *Scheduler) run(emitter Emitter, freq time.Duration) {
 			nextEl *list.Element
 			next   *ScheduledJob
 		)
-		if ready.Len() > 0 {
+		if ready.Len() > 0 && ongoing < s.concurrency {
+			// Offer a job only while a worker can be free: a worker that
+			// has posted its result is ready to receive again before the
+			// result is read, so without this bound more jobs than workers
+			// can be outstanding and their results overflow donec.
 			nextEl = ready.Front()
 			next = nextEl.Value.(*ScheduledJob)
 		} else {
